@@ -123,9 +123,10 @@ func GenCallableMethod(ctx *IContext, apply interface{}, proxy PFunc) uintptr {
 		// 生成桩代码,rdx 寄存器还原, 生成的调用将跳转到 proxy 函数
 		methodTyp := reflect.TypeOf(apply)
 		mockFunc := reflect.MakeFunc(methodTyp, proxy)
-		callStub, err := unexports2.FindFuncByName("reflect.makeFuncStub")
-		if err != nil {
-			panic(fmt.Sprintf("make interface err: %v", err))
+		// not ":=" on err: the error of MakeMethodCallerWithCtx below must reach the check behind this block
+		callStub, findErr := unexports2.FindFuncByName("reflect.makeFuncStub")
+		if findErr != nil {
+			panic(fmt.Sprintf("make interface err: %v", findErr))
 		}
 		mockFuncPtr := (*hack.Value)(unsafe.Pointer(&mockFunc)).Ptr
 		methodCaller, err = MakeMethodCallerWithCtx(mockFuncPtr, callStub)
